@@ -4,7 +4,7 @@
    name or value and fixed tokens otherwise (see Model.v).  "no_nul": the bytes contain no NUL. *)
 From Coq Require Import String.
 From Common Require Import Base.
-From SqlGen Require Import Model Proofs Sem SemProofs.
+From SqlGen Require Import Model Proofs Sem SemProofs SemParse.
 Open Scope list_scope.
 Open Scope N_scope.
 
@@ -133,3 +133,29 @@ Example C14_meaning_nonvacuous :
   parse_where (sql_lex (fst (gen_where ex_filters))) = Some (where_ast ex_filters) /\
   eval_filter ex_row (FCmp CLt (OCol (s2l "age")) (OInt 18)) = None.
 Proof. split; [reflexivity|]. split; [repeat constructor|]. vm_compute. repeat split. Qed.
+
+(* ------------------------------------------------------------------ from the text to the expression (SemParse.v) *)
+(* For filters whose parts are all atoms (comparisons, null tests, AND / OR lists, NOT, single-value HAS / HASALL):
+   lexing the generated WHERE text with SQLite's tokenizer and parsing it with SQL's precedence gives where_ast *)
+Theorem C14_where_parses_partial :
+  forall fs, fs <> [] -> forallb atomic fs = true -> Forall filter_ok fs ->
+    parse_where2 (sql_lex (fst (gen_where fs))) = Some (where_ast fs).
+Proof. exact where_text_parses. Qed.
+
+(* ... so for these filters the TEXT handed to the database means what the filters are documented to mean:
+   it parses to an expression that selects, on every row (NULLs included), exactly the rows every filter selects *)
+Theorem C14_filter_text_meaning_partial :
+  forall fs, fs <> [] -> forallb atomic fs = true -> Forall filter_ok fs ->
+    exists e, parse_where2 (sql_lex (fst (gen_where fs))) = Some e /\
+              forall r, sql_selects r e = forallb (selects r) fs.
+Proof. exact text_meaning. Qed.
+
+Definition ex_atomic : list filter :=
+  [FOr [FCmp CLt (OCol (s2l "age")) (OInt (-18)); FNot (FNot (FCmp CGe (OInt 3) (OStr (s2l "M'"))));
+        FAnd [FHas false (s2l "city") [s2l "o"]; FIsNull (s2l "age")]];
+   FHas true (s2l "name") [s2l "a"]; FNot (FIsNull (s2l "city"))].
+Example C14_parses_nonvacuous :
+  ex_atomic <> [] /\ forallb atomic ex_atomic = true /\ Forall filter_ok ex_atomic /\
+  parse_where (sql_lex (fst (gen_where ex_atomic))) = parse_where2 (sql_lex (fst (gen_where ex_atomic))) /\
+  forallb (selects ex_row) ex_atomic = true.
+Proof. split; [discriminate|]. split; [reflexivity|]. split; [repeat constructor|]. vm_compute. split; reflexivity. Qed.
